@@ -85,7 +85,7 @@ Definition plan_caps (row : rx_row) (p : plan) (texts : list bytes) : caps :=
 (* the rows the universal theorem covers: plan checked, every segment non-empty, every named group
    pinned to one item (or never captured), slice starts at 0 *)
 Definition plan_covers (row : rx_row) (p : plan) : bool :=
-  chain_ok true (rx_re row) p && forallb (fun sg => match sg with [] => false | _ => true end) p
+  chain_ok OAbs (rx_re row) p && forallb (fun sg => match sg with [] => false | _ => true end) p
   && fields_located row p && (rx_start row =? 0).
 Definition row_covered (row : rx_row) : bool := plan_covers row (row_plan row).
 
